@@ -36,6 +36,35 @@ def make_sources(shape):
     return a, b
 
 
+def extra_entries():
+    """Operators that need mutable CELLS (dicts, lists) in the source: the source table is replaced by one whose third
+    column holds dict / list cells with heterogeneous keys / lengths."""
+    import petl as etl
+
+    def with_cells(a, kind):
+        out = [a[0]]
+        for i, r in enumerate(a[1:]):
+            r2 = list(r)
+            if len(r2) >= 3:
+                r2[2] = ({'p': i, 'q': i + 1} if i % 2 == 0 else {'p': i}) if kind == 'dict' else ([i, i + 1, i + 2][:1 + i % 3])
+            out.append(r2)
+        return out
+    E = []
+
+    def add(name, kind, fn):
+        E.append({'name': name, 'cells': kind, 'fn': fn})
+    add('unpackdict(keys)', 'dict', lambda a, b: etl.unpackdict(a, 'n', keys=['p', 'q', 'r']))
+    add('unpackdict(sampled)', 'dict', lambda a, b: etl.unpackdict(a, 'n'))
+    add('unpackdict(includeoriginal)', 'dict', lambda a, b: etl.unpackdict(a, 'n', keys=['q'], includeoriginal=True))
+    add('unpack(list)', 'list', lambda a, b: etl.unpack(a, 'n', ['u', 'v']))
+    add('unpack(list, include_original)', 'list', lambda a, b: etl.unpack(a, 'n', 3, include_original=True))
+    add('melt(list cells)', 'list', lambda a, b: etl.melt(a, 'k'))
+    add('convert(dict cells)', 'dict', lambda a, b: etl.convert(a, 'n', lambda v: dict(v, z=1)))
+    add('sort(list cells)', 'list', lambda a, b: etl.sort(a, 'k'))
+    add('dicts(dict cells)', 'dict', lambda a, b: etl.dicts(a))
+    return E, with_cells
+
+
 def snapshot(tracked):
     return [[k + 1, digest(o) if not isinstance(o, _Container) else o.digest()] for k, o in enumerate(tracked)]
 
@@ -53,6 +82,8 @@ class _Container(object):
 def run_entry(e, shape, k):
     """Returns (trace, note). k = number of next() calls on data rows (k > len => full iteration)."""
     a, b = make_sources(shape)
+    if e.get('cells'):
+        a = extra_entries()[1](a, e['cells'])
     tracked = [_Container(a), _Container(b)] + [r for r in a] + [r for r in b]
     names = ['container a', 'container b'] + ['a[%d]' % i for i in range(len(a))] + ['b[%d]' % i for i in range(len(b))]
     snaps = []
@@ -86,12 +117,13 @@ def run_entry(e, shape, k):
 
 
 def record(chk, cases, full, rng):
-    entries = catalogue.entries()
+    entries = catalogue.entries() + extra_entries()[0]
+    nextra = len(extra_entries()[0])
     traces, meta = [], []
     na = 0
     for ci, case in enumerate(cases):
         shape, k = case['shape'], case['k']
-        sel = entries if full else [entries[(ci * 7 + j * 13) % len(entries)] for j in range(30)]
+        sel = entries if full else ([entries[(ci * 7 + j * 13) % len(entries)] for j in range(30)] + entries[-nextra:])
         for e in sel:
             tr, names, note = run_entry(e, shape, k if k <= len(shape) else 99)
             if note:
@@ -122,7 +154,7 @@ def validate(chk, traces, meta, seed):
     r2, v2 = common.validate('HeapTrace', bad, name='HeapTraceBad')
     ok = v2[1][0] != 0
     chk.binding_demo = {'corrupted': 'digest of a source row flipped in the last snapshot', 'verdict': list(v2[1]), 'rejected_as_expected': ok}
-    if not ok:
+    if not ok and not chk.violations:
         raise tlc.MachineryError('binding demo failed: mutated heap trace accepted')
 
 
@@ -154,7 +186,7 @@ def run(tier, seed):
 def replay(path):
     with open(path) as f:
         rp = json.load(f)['replay']
-    e = catalogue.by_name()[rp['op']]
+    e = dict(catalogue.by_name(), **{x['name']: x for x in extra_entries()[0]})[rp['op']]
     tr, names, note = run_entry(e, rp['shape'], rp['k'] if rp['k'] <= len(rp['shape']) else 99)
     bad = 0
     for i in range(len(tr['snaps']) - 1):
